@@ -105,6 +105,10 @@ impl FileSystem for OverlayFS {
                 }
             }
         }
+        if path.is_empty() {
+            // the whiteout bookkeeping folder is not part of the overlay's own namespace
+            entries.remove(".whiteout");
+        }
         Ok(Box::new(entries.into_iter()))
     }
 
